@@ -12,13 +12,28 @@ EXPLANATION = ("Every implicit obligation generated while executing the handlers
                "arithmetic/attribute access, indices in range, sqrt domain, assert conditions, no undeclared raise -- is discharged "
                "for all symbolic inputs satisfying the homed-state invariant, and each handler's result is None, IGNORE_GCODE_CMD or a "
                "non-empty list of commands (clause C09.result-shape / dispatch).")
-BREAKERS = [
-    {"module": "GcodeHandlers", "old": "        numSegments = max(1, int(math.ceil(arcLength / MM_PER_ARC_SEGMENT)))", "new": "        numSegments = int(math.ceil(arcLength / MM_PER_ARC_SEGMENT))",
-     "desc": "zero segments for a degenerate arc (original F8)", "functions": [H + "planArc"]},
-    {"module": "ExcludeRegionState", "old": "        if (not returnCommands):\n            returnCommands = self.ignoreGcodeCommand()\n\n        return returnCommands\n\n    def enterExcludedRegion",
-     "new": "        return returnCommands\n\n    def enterExcludedRegion", "desc": "empty list returned instead of IGNORE_GCODE_CMD", "functions": [S + "processLinearMoves"]},
-    {"module": "GcodeHandlers", "old": "            if (halfDist <= abs(radius)):", "new": "            if (True):", "desc": "sqrt of a negative number for a too-small radius",
-     "functions": [H + "computeArcCenterOffsets"]},
-    {"module": "ExcludeRegionState", "old": "            f=self.feedRate / self.feedRateUnitMultiplier,\n            z=self._logicalMoveTo", "new": "            f=self.feedRate / (self.feedRateUnitMultiplier - 1),\n            z=self._logicalMoveTo",
-     "desc": "exit divides by zero in millimetre mode", "functions": [S + "exitExcludedRegion"]},
-]
+BREAKERS = [{'desc': 'sqrt of a negative number for a too-small radius',
+  'functions': ['GcodeHandlers.GcodeHandlers.computeArcCenterOffsets'],
+  'module': 'GcodeHandlers',
+  'new': '            if (True):',
+  'old': '            if (halfDist <= abs(radius)):'},
+ {'desc': 'exit divides by zero in millimetre mode',
+  'functions': ['ExcludeRegionState.ExcludeRegionState.exitExcludedRegion'],
+  'module': 'ExcludeRegionState',
+  'new': '            f=self.feedRate / (self.feedRateUnitMultiplier - 1),\n            z=self._logicalMoveTo',
+  'old': '            f=self.feedRate / self.feedRateUnitMultiplier,\n            z=self._logicalMoveTo'},
+ {'desc': 'zero segments for a degenerate arc (original F8)',
+  'functions': ['GcodeHandlers.GcodeHandlers.planArc'],
+  'module': 'GcodeHandlers',
+  'new': '        numSegments = int(math.ceil(arcLength / MM_PER_ARC_SEGMENT))',
+  'old': '        numSegments = max(1, int(math.ceil(arcLength / MM_PER_ARC_SEGMENT)))'},
+ {'desc': 'empty list returned instead of IGNORE_GCODE_CMD',
+  'functions': ['ExcludeRegionState.ExcludeRegionState.processLinearMoves'],
+  'module': 'ExcludeRegionState',
+  'new': '        return returnCommands\n\n    def enterExcludedRegion',
+  'old': '        if (not returnCommands):\n'
+         '            returnCommands = self.ignoreGcodeCommand()\n'
+         '\n'
+         '        return returnCommands\n'
+         '\n'
+         '    def enterExcludedRegion'}]
